@@ -37,6 +37,17 @@ TREES = (
     "((a:0.1,b:0.2)ab:0.05,(c:0.3,d:0.15)cd:0.07,e:0.2);",
 )
 
+# the same topologies described differently (child order, internal node names,
+# position of the root): edge names then differ or refer to other edges, so
+# initialise_from_nested must refuse the pair or still be exact
+ALT_TREES = (
+    ("(c:0.3,a:0.1,b:0.2);",),
+    ("(c:0.3,d:0.15,(a:0.1,b:0.2):0.05);", "((b:0.2,a:0.1):0.05,c:0.3,d:0.15);", "((a:0.1,b:0.2)ab:0.05,c:0.3,d:0.15);",
+     "(a:0.1,b:0.2,(c:0.3,d:0.15):0.05);"),
+    ("((c:0.3,d:0.15)cd:0.07,(a:0.1,b:0.2)ab:0.05,e:0.2);", "((a:0.1,b:0.2):0.05,(c:0.3,d:0.15):0.07,e:0.2);",
+     "(a:0.1,b:0.2,((c:0.3,d:0.15)cd:0.07,e:0.2)x:0.05);", "((a:0.1,b:0.2)cd:0.05,(c:0.3,d:0.15)ab:0.07,e:0.2);"),
+)
+
 # (null, alt, kind)
 PAIRS = (
     ("F81", "HKY85", "matrix"),
@@ -131,6 +142,11 @@ def gen(rng, tier, index):
         # the nested model holds one of its rate parameters constant (everywhere, or
         # on an edge set): 0 = no, 1 = everywhere, 2 = on the selected edges
         "null_const": rng.choice([0, 0, 0, 0, 0, 0, 1, 1, 2, 1]),
+        # the richer function is not at its default values when it is initialised
+        "alt_preset": rng.random() < 0.25,
+        # the richer function is built on another description of the same topology
+        "alt_tree": rng.choice([0] * 9 + [1, 2, 3, 4]),
+        "split_codons": rng.random() < 0.3,
     }
     return plan
 
@@ -243,15 +259,15 @@ def build(plan, which, aln, tree):
     return lf
 
 
-def set_start(plan, lf):
-    kw = {"lower": 0.05, "upper": plan.get("upper", 6.0)} if plan["bounds"] else {}
-    k = 0
+def set_start(plan, lf, with_bounds=True, offset=0):
+    kw = {"lower": 0.05, "upper": plan.get("upper", 6.0)} if plan["bounds"] and with_bounds else {}
+    k = offset
     for rule in lf.get_param_rules():
         p = rule["par_name"]
         if p in ("mprobs", "length", "bprobs", "rate") or rule.get("is_constant"):
             continue
         v = round(0.2 + plan["start"][k % 8] * 4.0, 4)
-        if plan["bounds"]:
+        if kw:
             # a start on (or clipped onto) the declared bound is a legal start
             v = min(v, kw["upper"]) if plan["start"][(k + 5) % 8] < 0.6 else kw["upper"]
         k += 1
@@ -384,7 +400,16 @@ def run(plan, tier="quick") -> RunResult:
         try:
             null = build(plan, "null", aln, tree)
             set_start(plan, null)
-            alt = build(plan, "alt", aln, tree)
+            alt_tree = tree
+            variants = ALT_TREES[plan["tree"]]
+            if plan.get("alt_tree"):
+                from cogent3 import make_tree
+
+                alt_tree = make_tree(variants[(plan["alt_tree"] - 1) % len(variants)])
+            alt = build(plan, "alt", aln, alt_tree)
+            if plan.get("alt_preset"):
+                set_start(plan, alt, with_bounds=False, offset=2)
+                res.probe("alt-not-at-defaults")
         except Exception as e:  # noqa: BLE001
             res.probe(f"setup-refused:{type(e).__name__}")
             return _finish(res, h, plan)
@@ -405,6 +430,14 @@ def run(plan, tier="quick") -> RunResult:
         null_lnL = null.lnL
         try:
             alt.initialise_from_nested(null)
+        except AssertionError as e:
+            if alt_tree is not tree and "Topology" in str(e):
+                # another description of the tree: refusing the pair is legitimate
+                res.probe("different-tree-description-refused")
+                return _finish(res, h, plan)
+            res.add(f"C16.nested-init-raised/{pair}:AssertionError",
+                    f"initialise_from_nested raised {e!r}; null rules={null.get_param_rules()}", replay)
+            return _finish(res, h, plan)
         except Exception as e:  # noqa: BLE001
             res.add(f"C16.nested-init-raised/{pair}:{type(e).__name__}",
                     f"initialise_from_nested raised {e!r}; null rules={null.get_param_rules()}", replay)
@@ -413,7 +446,7 @@ def run(plan, tier="quick") -> RunResult:
         # J1
         a = alt.lnL
         if not numpy.isclose(a, null_lnL, rtol=1e-6, atol=1e-6):
-            cls = f"C16.nested-init/{pair}"
+            cls = f"C16.nested-init/{pair}" + (":other-tree-description" if alt_tree is not tree else "")
             try:
                 clipped = [r["par_name"] for r in alt.get_param_rules()
                            if r["par_name"] not in ("length", "mprobs") and not r.get("is_constant")
@@ -436,6 +469,10 @@ def run(plan, tier="quick") -> RunResult:
                     f"null fitted with n={plan['n1']} local={plan['local1']}; mprobs={null.get_motif_probs()}", replay)
             return _finish(res, h, plan)
         res.probe(f"nested-init-exact:{plan['kind']}")
+        if alt_tree is not tree:
+            # accepted and exact (the description names the same edges the same way)
+            res.probe("different-tree-description-accepted-exact")
+            return _finish(res, h, plan)
         saved_rules = alt.get_param_rules()
         ok = optimise_checked(plan, alt, plan["n2"], plan["local2"], res, "alt fit", replay, counter)
         if ok is False:
@@ -496,8 +533,12 @@ def run(plan, tier="quick") -> RunResult:
             oa = {"max_evaluations": plan["n2"], "limit_action": "ignore"}
             ob = {"max_evaluations": max(plan["n1"], 30), "limit_action": "ignore"}
             try:
-                m0 = get_app("model", plan["null"], tree=tree, opt_args=ob, show_progress=False)
+                split = {"split_codons": True} if plan.get("split_codons") and plan["kind"] == "matrix" else {}
+                if split:
+                    res.probe("hypothesis-app-split-codons")
+                m0 = get_app("model", plan["null"], tree=tree, opt_args=ob, show_progress=False, **split)
                 m1kw = {"time_het": "max"} if plan["kind"] in ("matrix+scope", "scope-indep") else {}
+                m1kw.update(split)
                 if plan["kind"] == "scope-edges":
                     edges = [e.name for e in tree.get_edge_vector(include_root=False)]
                     sel = sorted({edges[e % len(edges)] for e in plan["scope_edges"]})
@@ -513,7 +554,7 @@ def run(plan, tier="quick") -> RunResult:
                     res.probe("hypothesis-app-chain")
                     for nm in extra:
                         chain.append(nm)
-                        alts.append(get_app("model", nm, tree=tree, opt_args=oa, show_progress=False))
+                        alts.append(get_app("model", nm, tree=tree, opt_args=oa, show_progress=False, **split))
                 hyp = get_app("hypothesis", m0, *alts)
                 result = hyp(aln)
                 if result and len(chain) > 2:
@@ -522,12 +563,9 @@ def run(plan, tier="quick") -> RunResult:
                         if lb < la - 2.1e-6 * max(1.0, abs(la)):
                             cause = f"app-chain:{a}->{b}"
                             try:
-                                probe = sm_of(b.replace("-alt", "")).make_likelihood_function(tree)
-                                probe.set_alignment(aln)
-                                probe.initialise_from_nested(result[a].lf)
-                                vals = [r.get("init") for r in probe.get_param_rules()
-                                        if r["par_name"] not in ("length", "mprobs") and not r.get("is_constant")]
-                                if any(v is not None and (v > 50 or v < 1e-6) for v in vals):
+                                if _projection_leaves_app_bounds(
+                                        lambda: sm_of(b.replace("-alt", "")).make_likelihood_function(tree),
+                                        result[a].lf, aln):
                                     cause = "app:bounds-clip"  # known finding C16-K1, here inside a chain
                             except Exception:  # noqa: BLE001
                                 pass
@@ -544,11 +582,9 @@ def run(plan, tier="quick") -> RunResult:
                         # parameter: was a projected value outside them?
                         cause = pair
                         try:
-                            probe = build(plan, "alt", aln, tree)
-                            probe.initialise_from_nested(result.null.lf)
-                            vals = [r.get("init") for r in probe.get_param_rules()
-                                    if r["par_name"] not in ("length", "mprobs") and not r.get("is_constant")]
-                            if any(v is not None and (v > 50 or v < 1e-6) for v in vals):
+                            if _projection_leaves_app_bounds(
+                                    lambda: sm_of(plan["alt"]).make_likelihood_function(tree)
+                                    if split else build(plan, "alt", aln, tree), result.null.lf, aln):
                                 cause = "bounds-clip"
                         except Exception:
                             pass
@@ -558,6 +594,22 @@ def run(plan, tier="quick") -> RunResult:
             except Exception as e:  # noqa: BLE001
                 res.add(f"C16.app-raised/{pair}:{type(e).__name__}", f"hypothesis app raised {e!r}", replay)
     return _finish(res, h, plan)
+
+
+def _projection_leaves_app_bounds(make_alt, nested, aln):
+    """does projecting the fitted nested function(s) into a fresh richer function give a
+    rate outside the model app's default bounds (1e-6 .. 50)?  `nested` is a likelihood
+    function, or {codon position: function} for a split-codon fit"""
+    fits = nested if isinstance(nested, dict) else {None: nested}
+    for pos, lf in fits.items():
+        probe = make_alt()
+        probe.set_alignment(aln if pos is None else aln[int(pos) - 1::3])
+        probe.initialise_from_nested(lf)
+        vals = [r.get("init") for r in probe.get_param_rules()
+                if r["par_name"] not in ("length", "mprobs") and not r.get("is_constant")]
+        if any(isinstance(v, (int, float, numpy.floating)) and (v > 50 or v < 1e-6) for v in vals):
+            return True
+    return False
 
 
 def _checkpoint_scenario(plan, aln, tree, saved_rules, res, replay, counter):
@@ -645,7 +697,7 @@ def describe(plan):
 
 
 MINIMISE_KW = {"protect": ("engine", "null", "alt", "kind", "fail_exc", "local1", "local2", "tree", "len",
-                           "limit_action", "mprobs_mode"),
+                           "limit_action", "mprobs_mode", "alt_tree"),
                "list_keys": ("start",), "budget_s": 60.0, "max_tries": 60}
 
 # the first N runs are repeated in interpreters with another PYTHONHASHSEED
@@ -654,7 +706,7 @@ CROSS_HASHSEED = 64
 EVIDENCE = {
     "rule": (
         "scenario = nested pair (31 nucleotide pairs: by rate matrix F81/HKY85/TN93/GTR/GN, JC69/K80; by motif-probability "
-        "freedom K80->HKY85, JC69->F81; by scope: global vs per-edge / edge-set parameter, a null that already has a two-scope parameter refined further, and pairs nested by matrix and scope at once; in 40% of matrix/mprobs pairs the null holds one rate parameter constant, everywhere or on an edge set; 4% (quick) / 6% (thorough) of scenarios use one of 11 codon pairs: MG94HKY->MG94GTR, CNFHKY->CNFGTR, Y98->H04G/H04GK/H04GGK, H04G/H04GK->H04GGK, scope pairs on MG94HKY, Y98, H04GK, CNFGTR) "
+        "freedom K80->HKY85, JC69->F81; by scope: global vs per-edge / edge-set parameter, a null that already has a two-scope parameter refined further, and pairs nested by matrix and scope at once; in 40% of matrix/mprobs pairs the null holds one rate parameter constant, everywhere or on an edge set; in 25% the richer function is not at its default values when initialised; in 30% it is built on another description of the same topology (child order, node names, root position: must be refused or exact); 30% of app scenarios use split_codons; 4% (quick) / 6% (thorough) of scenarios use one of 11 codon pairs: MG94HKY->MG94GTR, CNFHKY->CNFGTR, Y98->H04G/H04GK/H04GGK, H04G/H04GK->H04GGK, scope pairs on MG94HKY, Y98, H04GK, CNFGTR) "
         "x tree (3-5 taxa) x simulated alignment (length, divergence, base composition) x start values x optimiser "
         "settings (local / global / both, tolerance, max_restarts, seed, bounds) x cut-offs n1, n2 from 1..400 x "
         "a plan-chosen pseudo-random region of parameter space (0/3/10/30% of points) in which a calculator update is "
@@ -673,7 +725,8 @@ EVIDENCE = {
     ],
     "expected_probes": ["cut-off-sweep", "hypothesis-app", "nested-init-exact:matrix", "nested-init-exact:scope-indep",
                         "nested-init-exact:scope-edges", "nested-init-exact:mprobs", "nested-init-exact:scope2-indep",
-                        "nested-init-exact:scope2-edges", "codon-pair", "null-holds-constant-rate:everywhere",
+                        "nested-init-exact:scope2-edges", "alt-not-at-defaults", "different-tree-description-refused",
+                        "hypothesis-app-split-codons", "codon-pair", "null-holds-constant-rate:everywhere",
                         "null-holds-constant-rate:edge-set"],
     "explanation": "C16 cuts optimiser runs at swept evaluation counts with injected evaluation failures and checks the nested-initialisation and monotonicity invariants.",
 }
